@@ -362,6 +362,15 @@ func (t *Tree) stmt(ctx string, s *Scope) Node {
 		t.errorf("statements nested more than %d levels deep", maxNesting)
 	}
 	id := t.expect(itemString, ctx)
+	// A keyword is a YANG keyword or the prefixed name of an extension; the
+	// names the parser uses internally for node types are neither.
+	if !strings.Contains(id.val, ":") {
+		switch nt, known := nodeTypeMap[id.val]; {
+		case !known, nt == NodeUnknown, nt == NodeDeviateAdd, nt == NodeDeviateDelete,
+			nt == NodeDeviateReplace, nt == NodeDeviateNotSupported:
+			t.errorf("unknown statement %s in %s", id.val, ctx)
+		}
+	}
 	i := t.peekNonSpace()
 	switch i.typ {
 	case itemLeftBrace:
